@@ -426,6 +426,7 @@ func (ctx drawContext) drawBackground(bg *bo.Background, clipBox bool, bleed bo.
 			})
 		}
 
+		layers := bg.Layers
 		if (bleed != bo.Bleed{}) && !marks.IsNone() {
 			x, y, width, height := bg.Layers[len(bg.Layers)-1].PaintingArea.Unpack()
 			svg := headerSVG
@@ -464,10 +465,11 @@ func (ctx drawContext) drawBackground(bg *bo.Background, clipBox bool, bleed bo.
 				Image: image, Size: size, Position: position, Repeat: repeat, Unbounded: unbounded,
 				PaintingArea: paintingArea, PositioningArea: positioningArea,
 			}
-			bg.Layers = append([]bo.BackgroundLayer{layer}, bg.Layers...)
+			// the page's background is not modified: it would get one more layer at each painting
+			layers = append([]bo.BackgroundLayer{layer}, layers...)
 		}
 		// Paint in reversed order: first layer is "closest" to the viewer.
-		for _, layer := range reversed(bg.Layers) {
+		for _, layer := range reversed(layers) {
 			ctx.drawBackgroundImage(layer, bg.ImageRendering)
 		}
 	})
